@@ -145,6 +145,8 @@ Definition catalogue : list (string * discharge) := [
      Modelled "odump");
   ("src/glyph/mod.rs|impl Contour::to_kurbo|guards|if !self.points.is_empty() && self.points.iter().all(|pt| pt.typ == PointType::OffCurve) ;; for (i, pt) in pts.iter().enumerate() ;; if self.is_closed() ;; if let Some(start) = points.next() ;; for pt in points ;; if offs.is_empty() ;; while let Some(pt) = offs.pop_front() ;; if let Some(next) = offs.front()",
      Modelled "kurbo_offcurve_sites");
+  ("src/glyph/mod.rs|impl Image::new|guards|if file_name.as_os_str().is_empty() ;; if file_name.is_absolute() ;; if file_name.parent().is_some_and(|p| !p.as_os_str().is_empty()) ;; if file_name.to_str().is_none()",
+     Modelled "image_new");
   ("src/glyph/mod.rs|impl Glyph::new|call|Name::new_raw(name)",
      Documented "invalid name passed to a panicking Name constructor (Glyph::new; crate-internal Name::new_raw)");
   ("src/glyph/mod.rs|impl Glyph::dump_object_libs|unwrap|id.unwrap()",
@@ -206,23 +208,25 @@ Definition catalogue : list (string * discharge) := [
   ("src/glyph/serialize.rs|fn write_lib_section|index|&lib_xml[start_idx..end_idx]",
      TypeInvariant "L1: layout of the plist crate's XML output (declaration, DOCTYPE, the <plist version=1.0> line, the root <dict>, the closing </plist> line): markup characters inside keys and strings are escaped, so the first match of the header ends before the first match of the footer; both offsets come from str::find and are char boundaries. Lib strings containing the header / footer text are part of the search");
   ("src/glyph/serialize.rs|impl Image::to_event|expect|self.file_name.to_str().expect(""missing path"")",
-     Reachable "image-non-utf8" "C03_image_utf8_ok");
+     ModelLemma "C03_image_to_event_ok");
   ("src/identifier.rs|impl Identifier::from_uuidv4|unwrap|Self::new(uuid::Uuid::new_v4().to_string().as_ref()).unwrap()",
      ModelLemma "C03_from_uuid");
-  ("src/layer.rs|impl LayerContents::load|guards|if layer_contents_path.exists() ;; if !filter.includes_default_layer() && !layers.iter().any(Layer::is_default)",
-     TypeInvariant "default_idx comes from position(..) through ok_or(MissingDefaultLayer)?; the conditions guard no site");
+  ("src/layer.rs|impl LayerContents::load|guards|if layer_contents_path.exists() ;; for (name, path) in &to_load ;; let Some(dir) = plain_name(path) else ;; if !seen_names.insert(name) ;; if !seen_dirs.insert(dir) ;; if name.as_str() == DEFAULT_LAYER_NAME && dir != OsStr::new(DEFAULT_GLYPHS_DIRNAME) ;; if !filter.includes_default_layer() && !layers.iter().any(Layer::is_default)",
+     Modelled "load_layer_dir");
   ("src/layer.rs|impl LayerContents::new_layer|guards|if name == DEFAULT_LAYER_NAME ;; if self.layers.iter().any(|l| l.name == name)",
      Modelled "new_layer");
   ("src/layer.rs|impl LayerContents::remove|guards|if let Some(layer) = &removed_layer",
      Modelled "lc_remove");
   ("src/layer.rs|impl LayerContents::rename_layer|guards|if !overwrite && self.get(new).is_some() ;; if self.get(old).is_none() ;; if new == DEFAULT_LAYER_NAME && self.layers[0].name != old ;; if old == new ;; if self.layers[0].name == new ;; if overwrite ;; if layer_pos != 0",
      Modelled "rename_layer");
-  ("src/layer.rs|impl Layer::load_impl|guards|if !contents_path.exists() ;; if layerinfo_path.exists()",
-     TypeInvariant "existence tests of contents.plist / layerinfo.plist: they decide whether the unwrap is reached at all (see finding layer-dir-dotdot), not whether it holds");
+  ("src/layer.rs|impl Layer::load_impl|guards|if !contents_path.exists() ;; for (name, path) in &contents ;; let Some(file_name) = plain_name(path) else ;; if !seen_files.insert(file_name) ;; if layerinfo_path.exists()",
+     TypeInvariant "existence tests and the plain-file-name / duplicate tests of contents.plist values: they return errors and guard no site (the file_name().unwrap() is guarded by plain_name in LayerContents::load)");
   ("src/layer.rs|impl Layer::insert_glyph|guards|if !self.contents.contains_key(&glyph.name)",
      Modelled "insert_glyph");
   ("src/layer.rs|impl Layer::rename_glyph|guards|if !overwrite && self.glyphs.contains_key(new) ;; if !self.glyphs.contains_key(old)",
      Modelled "rename_glyph");
+  ("src/layer.rs|fn plain_name|guards|match (components.next(), components.next()) { (Some(Component::Normal(name)), None) => Some(name), _ => None, }",
+     Modelled "plain_name");
   ("src/layer.rs|impl LayerContents::load|call|Name::new_raw(DEFAULT_LAYER_NAME)",
      ModelLemma "C03_default_layer_name_valid");
   ("src/layer.rs|impl LayerContents::load|method|layers.remove(default_idx)",
@@ -262,7 +266,7 @@ Definition catalogue : list (string * discharge) := [
   ("src/layer.rs|impl LayerContents::rename_layer|index|self.layers[layer_pos]#3",
      ModelLemma "C03_rename_layer_no_panic");
   ("src/layer.rs|impl Layer::load_impl|unwrap|path.file_name().unwrap()",
-     Reachable "layer-dir-dotdot" "C03_layer_dir_name_ok");
+     ModelLemma "C03_load_layer_dir_no_panic");
   ("src/layer.rs|impl Layer::save_with_options|expect|self.glyphs.get(name).expect(""all glyphs in contents must exist."")",
      Reachable "entry-remove" "C03_layer_save_no_panic");
   ("src/layer.rs|impl Layer::insert_glyph|call|crate::util::default_file_name_for_glyph_name(&glyph.name, &self.path_set)",
@@ -293,7 +297,7 @@ Definition catalogue : list (string * discharge) := [
      TypeInvariant "size hint: len <= isize::MAX / size_of::<(String, Value)>(), so len * 2 cannot overflow");
   ("src/upconversion.rs|fn upconvert_kerning|guards|for (first, seconds) in kerning ;; if groups.contains_key(first) && !glyph_set.contains(first) && !first.starts_with(""public.kern1."") ;; for second in seconds.keys() ;; if groups.contains_key(second) && !glyph_set.contains(second) && !second.starts_with(""public.kern2."") ;; for first in &groups_first ;; for second in &groups_second ;; for (first, seconds) in kerning ;; for (second, value) in seconds",
      Modelled "upconv_side");
-  ("src/upconversion.rs|fn make_unique_group_name|guards|if !existing_groups.contains_key(&name) ;; while existing_groups.contains_key(&new_name)",
+  ("src/upconversion.rs|fn make_unique_group_name|guards|if !is_taken(&name) ;; while is_taken(&new_name)",
      Modelled "unique_loop");
   ("src/upconversion.rs|fn upconvert_kerning|unwrap|Name::new(&format!(""public.kern1.{}"", first.replace(""@MMK_L_"", """"))).unwrap()",
      ModelLemma "C03_upconv_names");
@@ -351,6 +355,8 @@ Definition catalogue : list (string * discharge) := [
      Documented "invalid indent settings (WriteOptions::indent / whitespace)");
   ("src/fontinfo.rs|<top>|const|DATE_LENGTH = 19",
      Modelled "DATE_LENGTH");
+  ("src/layer.rs|<top>|const|DEFAULT_GLYPHS_DIRNAME = ""glyphs""",
+     Modelled "DEFAULT_DIR");
   ("src/layer.rs|<top>|const|DEFAULT_LAYER_NAME = ""public.default""",
      Modelled "DEFAULT_LAYER_NAME");
   ("src/font.rs|<top>|const|DEFAULT_METAINFO_CREATOR = ""org.linebender.norad""",
